@@ -108,6 +108,10 @@ func (v *VMValue) ToJSONRaw(save map[*VMValue]bool) ([]byte, error) {
 
 	case VMTypeNativeFunction:
 		fd, _ := v.ReadNativeFunctionData()
+		if _, ok := builtinValues[fd.Name]; !ok {
+			// 只有名字会被序列化: 绑定方法(如 [1,2].len)及非内置的原生函数无法还原
+			return nil, errors.New("值错误: 无法序列化原生函数 " + fd.Name)
+		}
 		return json.Marshal(struct {
 			TypeId VMValueType `json:"t"`
 			Value  struct {
